@@ -25,6 +25,26 @@ CLAIMED["C08"] = ("DESIGN.md §5 C08",
     "Layer 1: every tokenising regex of asimap.parse is translated from its re._parser tree to a z3 regex term at run time and its language compared by z3 with the RFC 3501 token language for strings of any length (no accepted token contains a terminator; quoted strings, literal prefixes, numbers, sets and dates accept only well-formed words); witnesses are replayed through the real pattern. Layer 2: the real parse() runs on skeletons of every argument kind (mailbox/INBOX, quoted escapes, literals by octet count, sequence sets, dates, date-times, sections/partials, STORE flags, search-key trees, LIST-EXTENDED options, trailing text); only BadCommand may escape and an accepted sentence must decode to the expected value with nothing left over.",
     "Trusted: z3 string/regex theory, the re->z3 translation (validated against re on every witness), CrossHair. Layer 2 is bounded exploration: holes are realised, i.e. enumerated by the decision tree (quick: slices of each space; thorough: the full product listed in BOUNDS). Over-rejection of valid sentences is not a violation of the property as stated.")
 
+
+_MB = "CrossHair symbolic execution of the real Mailbox operations from generated valid states (one-step induction on the representation invariant), z3 deciding every branch"
+_MBN = "Trusted: CrossHair+z3, FakeMH (stdlib MH contract: add=max+1, remove leaves .mh_sequences, get_sequences filters to existing keys, pack renumbers), NullDB or real SQL on in-memory sqlite, clock stubs. Bounds: n<=3 quick / n<=4 thorough, key gaps 1..2, one operation per step; histories covered by induction on the invariant that every step re-establishes."
+CLAIMED["C02"] = ("DESIGN.md §5 C02", _MB + "; commit/restore round trip through the real SQL; UIDVALIDITY of re-created names",
+    "From an arbitrary valid mailbox state (symbolic key gaps, next_uid slack, flag bits) each real operation (resync after delivery, expunge in its three modes, pack, append, copy, shutdown+restore) is executed symbolically and must re-establish: UIDs strictly ascending, lengths agree, next_uid above every UID and never decreasing, every newly assigned UID >= the previously announced UIDNEXT, APPENDUID/COPYUID equal to the UIDs actually assigned (and _format_copyuid prints exactly those), persisted range strings round-trip, UIDVALIDITY unchanged by restart and strictly larger for a name that is deleted and created again.", _MBN)
+CLAIMED["C03"] = ("DESIGN.md §5 C03", _MB + "; content-tag ghost map compared through the real lookup path",
+    "Each message carries an opaque content tag and mtime. Before and after every real operation (expunge of arbitrary subsets in all three modes, pack with the pack limit lowered so packing is reachable, delivery resync, append, copy, orderly restart) every surviving UID is fetched through get_msg_by_uid and must return the same tag and internal date; uids/msg_keys/folder files/index dicts stay a bijection.", _MBN)
+CLAIMED["C04"] = ("DESIGN.md §5 C04", _MB + "; flag-algebra reference model; FETCH/SEARCH agreement at handler level",
+    "The real Mailbox.store / append / copy / pack / resync and do_fetch/do_search are run with symbolic per-message flag bits, STORE action, flag list, addressed subset, UID form and observer idling; post-state, response lines, notifications to the other session, .mh_sequences and SEARCH results are compared with a reference flag algebra (Seen/unseen complements, \\Recent immutable for clients, replace keeps \\Recent).", _MBN + " Flag names: the five system flags, \\Recent and one keyword; canonical spellings.")
+CLAIMED["C05"] = ("DESIGN.md §5 C05", _MB + "; conservation oracle on content tags; handler-level EXAMINE and refused-command steps",
+    "EXPUNGE/UID EXPUNGE/forced expunge remove exactly the addressed messages for symbolic \\Deleted subsets and UID restrictions (incl. non-existent UIDs); APPEND/COPY add exactly one message per source with the same content, flags and internal date and report exactly those UIDs; a STORE refused for \\Recent, commands with out-of-range sets or missing destinations, and every mutating command in an EXAMINE session leave the deep state (lists, sequences, folder, .mh_sequences, tree) unchanged.", _MBN)
+CLAIMED["C13"] = ("DESIGN.md §5 C13", _MB + "; .mh_sequences file compared with the in-memory flags after every step",
+    "External deliveries (symbolic count, unseen bits, key gap, mtime advanced or not, observer idling) are reconciled by the real check_new_msgs_and_flags: new messages at the end with fresh larger UIDs, \\Recent and exactly the agent's flags, old UIDs/flags untouched, EXISTS announced. After every mutating operation the folder's .mh_sequences mentions only existing keys and equals the sessions' flags (Seen exactly when not in unseen).", _MBN)
+CLAIMED["C15"] = ("DESIGN.md §5 C15", "CrossHair differential execution of the four real interpreters of the set language against one reference denotation, symbolic endpoints",
+    "sequence_set_to_list, Mailbox.msg_set_to_msg_seq_set, the SEARCH matchers _match_message_set/_match_uid and Mailbox.copy's own expansion are run on the same symbolic set (7 shapes, endpoints 0..N+1 or 0..max UID+2, '*') and compared on BAD-vs-set and on membership of a symbolic probe message: a:b == b:a, '*' is the last message, n:* contains the last message, UID sets skip missing UIDs, out-of-range numbers are BAD (SEARCH may match nothing).", "Trusted: CrossHair+z3, FakeMH, reference denotation (asv/refmodel/seqset.py). N in {0,3} quick, 0..5 thorough; sets of at most 3 elements.")
+CLAIMED["C11"] = ("DESIGN.md §5 C11", "CrossHair symbolic execution with the crash point (index of the durable effect after which the process dies) as a symbolic integer; real sqlite transactions; restart through the real start-up code",
+    "One mutating operation (append, expunge, store, copy, pack, delivery resync, create, delete, rename, subscribe, first start-up with schema migration) runs on the real code over a fake MH store and real in-memory sqlite whose every durable effect is numbered; the process dies after effect c (symbolic), the open transaction is rolled back, all objects are dropped, a new server starts through apply_migrations/_restore_from_db/Mailbox.new and must succeed; the ledger of revealed (UIDVALIDITY, UID)->content pairs, announced UIDNEXT and acknowledged results is checked.", "Trusted: CrossHair+z3, FakeMH, sqlite3 semantics. One file write / one commit atomic; the interrupted operation starts in a later clock second than the last completed one. One operation per crash; c <= 14 quick / 30 thorough.")
+CLAIMED["C12"] = ("DESIGN.md §5 C12", "CrossHair symbolic execution of shutdown -> commit_to_db -> new server -> _restore_from_db/check_new_msgs_and_flags through the real SQL on in-memory sqlite",
+    "An arbitrary valid mailbox state (sparse keys/UIDs, flag bits incl. a keyword, next_uid slack, subscription, \\Marked, stored-vs-actual mtime) is shut down by the real code and re-activated by a new server object on the same store; UIDVALIDITY, UIDNEXT, UID list, flags apart from \\Recent, subscription and the SELECT data must be identical.", "Trusted: CrossHair+z3, FakeMH, real asimap.db.Database with tokenised parameters on sqlite. n<=2 quick / n<=3 thorough; gap shapes listed in evidence.")
+
 NOT_YET = {}
 
 def main():
